@@ -96,7 +96,7 @@ def p_get(I, st, fr, e, c, a):
     i = _nat(a[1])
     I.pre_ge(st, fr, e, "get", t_len(x), i + 1, f"{show_poly(i)} < len({show_term(x)})")
     if not elem_is_nat(I, e):
-        return [(st, VTop("element"), None)]
+        return [(st, VUser(("get", x, i)), None)]
     return [(st, VNat(get_value(st, x, i)), None)]
 
 
@@ -143,6 +143,10 @@ def _range(I, st, x, r):
         hi = f["end"].p if isinstance(f.get("end"), VNat) else n
         if r.ty.endswith("RangeInclusive") or r.ty.endswith("RangeToInclusive"):
             hi = hi + 1
+        return lo, hi
+    if isinstance(r, VUser) and isinstance(r.key, str) and r.key.startswith("range:"):
+        # a generic RangeBounds parameter: its clamped bounds are opaque (to_range decides them; C07 to_range spec)
+        lo, hi = Poly.atom(("rangelo", r.key, x)), Poly.atom(("rangehi", r.key, x))
         return lo, hi
     raise TypeError("range value " + repr(r))
 
